@@ -42,6 +42,7 @@ type byzStep struct {
 	ms         int
 	poison     bool
 	transplant bool
+	tailor     bool
 }
 
 // batchCtx fixes the choices that all validators of one multi-validator batch share.
@@ -403,6 +404,44 @@ func (b *byzDriver) act() { b.actWith("", false) }
 // early enough to be among the first t partials the peers store for those validators.
 func (b *byzDriver) poison() { b.actWith("same-message-root-other-fork", true) }
 
+// tailor equivocates per recipient: every peer gets, for all validators in one set, this identity's
+// valid partial signature over the sync-committee head that peer's own VC signs (a re-signing peer
+// gets one of its two heads).
+func (b *byzDriver) tailor() {
+	w := b.w
+	b.mu.Lock()
+	defer b.mu.Unlock()
+	var wg sync.WaitGroup
+	for tgt := 0; tgt < w.n; tgt++ {
+		if tgt == b.idx || !w.hasStack(tgt) || w.sched.isCrashed(tgt) || w.sched.isCrashed(b.idx) {
+			continue
+		}
+		choice := w.p.SyncChoice[tgt]
+		if w.p.ResignMs[tgt] >= 0 && b.rng.Intn(2) == 0 {
+			choice = w.p.SyncChoice2[tgt]
+		}
+		set := core.ParSignedDataSet{}
+		for _, v := range w.vals {
+			m := &altair.SyncCommitteeMessage{Slot: eth2p0.Slot(w.slot), ValidatorIndex: v.Idx, BeaconBlockRoot: w.syncRoots[choice]}
+			if err := w.ch.sign(m, b.share(v), "", nil); err != nil {
+				return
+			}
+			set[v.Core] = core.NewPartialSignedSyncMessage(m, b.idx+1)
+		}
+		msg, err := b.msg(&forged{Duty: w.syncDuty, Set: set})
+		if err != nil {
+			continue
+		}
+		w.r.Count("byz/sent/sync/tailored-to-recipient", 1)
+		wg.Add(1)
+		go func(tgt int) {
+			defer wg.Done()
+			w.net.Inject(w.ids[b.idx], w.ids[tgt], protoParSigEx, msg)
+		}(tgt)
+	}
+	wg.Wait()
+}
+
 func (b *byzDriver) actWith(forceClass string, all bool) {
 	w := b.w
 	b.mu.Lock()
@@ -472,7 +511,17 @@ func (b *byzDriver) schedule(actions int) {
 	for i := 0; i < actions; i++ {
 		b.at = append(b.at, byzStep{ms: -300 + b.rng.Intn(4300)})
 	}
-	if w.hasKind("sync") && len(w.vals) > 1 && b.rng.Intn(5) != 0 {
+	resigners := false
+	for i := 0; i < w.n; i++ {
+		if w.p.ResignMs[i] >= 0 {
+			resigners = true
+		}
+	}
+	if w.hasKind("sync") && resigners && b.rng.Intn(4) != 0 {
+		// split heads and a re-signing VC: equivocate per recipient, first (this identity's share can
+		// only count once per node)
+		b.at = append(b.at, byzStep{ms: -350 + b.rng.Intn(300), tailor: true}, byzStep{ms: 300 + b.rng.Intn(2500), tailor: true})
+	} else if w.hasKind("sync") && len(w.vals) > 1 {
 		b.at = append(b.at, byzStep{ms: -350 + b.rng.Intn(300), poison: true}, byzStep{ms: 200 + b.rng.Intn(2000), poison: true})
 	}
 	b.at = append(b.at, byzStep{ms: 600 + b.rng.Intn(1500), transplant: true}, byzStep{ms: 2000 + b.rng.Intn(2000), transplant: true})
@@ -488,7 +537,9 @@ func (b *byzDriver) run() {
 		if w.stopped.Load() {
 			return
 		}
-		if st.transplant {
+		if st.tailor {
+			b.tailor()
+		} else if st.transplant {
 			b.transplant(false)
 		} else if st.poison {
 			b.poison()
